@@ -8,6 +8,7 @@ from stocksdrv import arr, oracle_dt
 import props.c03 as c03
 
 ID = "C09"
+THOROUGH_ROUNDS = 4      # rounds of generate() in the thorough tier (new random draws each round)
 COQ_MODULE = "Corr.StocksC"
 SHARD = 60
 RULE = ("both DSM classes (stock-driven with both solvers) x the grids of C03 (unit, constant, uneven; power-of-two interval "
